@@ -221,6 +221,8 @@ def run(repo, tier):
         if any(is_line(a) for a in ev['val']):
             line_nodes.add(id(ev['node']))
     n_checked = n_ae = 0
+    polluted = False
+    line_findings = []
     for ev in sorted(it.ev_store.values(), key=lambda e: (getattr(e['site'], 'lineno', 0), e['attr'])):
         if id(ev['node']) not in line_nodes:
             continue
@@ -231,17 +233,27 @@ def run(repo, tier):
         rule = 'R15.2.line' if is_err else 'R15.5.items'
         names = '/'.join(sorted(ev['cls']))
         site = ev['site']
+        if bad and id(site) in it.approx_sites:
+            undecided.append('{}:{} the arguments of {} come from a * / ** expansion whose shape the analysis does not know'.format(ev['qual'], getattr(site, 'lineno', '?'), unparse(site)[:50]))
+            polluted = True
+            continue
         if bad:
             what = ', '.join(sorted({'None' if a == NONE else ('text' if a[0] in ('str', 'c', 'tok') else a[0]) for a in bad}))
             msg = ('this assembler error does not carry the Line of the faulty source line (its `{}` may be: {})' if is_err else
                    '{} is built without the Line of the source line it derives from (its `{{}}` may be: {{}})'.format(names)).format(ev['attr'], what)
-            rep.fail(Finding(rule, ev['qual'], site, msg, line=getattr(site, 'lineno', None)), instance='{} {} {}'.format(ev['qual'], names, unparse(site)[:60]))
+            line_findings.append((Finding(rule, ev['qual'], site, msg, line=getattr(site, 'lineno', None)), '{} {} {}'.format(ev['qual'], names, unparse(site)[:60])))
             continue
         lost = [a for a in ev['val'] if a[2] in ('*', '?')]
         if lost:
             undecided.append('{}:{} {} (which line the {} carries is not established)'.format(ev['qual'], getattr(site, 'lineno', '?'), unparse(site)[:50], names))
             continue
         rep.ok(rule, '{}: {} carries the line of the element being processed ({})'.format(ev['qual'], names, unparse(site)[:60]), nontrivial=False)
+    for f_, inst in line_findings:
+        if polluted:
+            # values of unknown shape were stored into Line-holding attributes: what is read back from them proves nothing
+            undecided.append('{}:{} {}'.format(f_.construct, f_.line, f_.stmt[:50]))
+        else:
+            rep.fail(f_, instance=inst)
     rep.analysed['Line-holding attribute stores checked'] = n_checked
     rep.analysed['AssemblerError constructions'] = n_ae
     # ---- R15.5.origin -----------------------------------------------------------------------------------------------------------
